@@ -84,7 +84,9 @@ func c06r1(c *core.Ctx) {
 				arg = core.CallOf(i).Args[0]
 			}
 			switch {
-			case core.AnySource(arg, func(s ssa.Value) bool { return core.CallResult(s, 0, func(ci ssa.Instruction) bool { return ci == ssa.Instruction(seal) }) != nil }):
+			case core.AnySource(arg, func(s ssa.Value) bool {
+				return core.CallResult(s, 0, func(ci ssa.Instruction) bool { return ci == ssa.Instruction(seal) }) != nil
+			}):
 				wdesc = append(wdesc, "ciphertext")
 			default:
 				a := allocOf(arg)
